@@ -176,7 +176,7 @@ func checkScen(c ScenCase, o *vf.Obs) error {
 	pool := map[string]any{
 		"id": "p",
 		// no keep-alive: a reset/close then hits a fresh connection and Go's transport does not silently retry
-		"gun":     map[string]any{"type": "http/scenario", "target": tg.Addr(), "response-header-timeout": "150ms", "disable-keep-alives": true},
+		"gun":     map[string]any{"type": "http/scenario", "target": tg.Addr(), "response-header-timeout": "400ms", "disable-keep-alives": true},
 		"ammo":    map[string]any{"type": "http/scenario", "file": name, "limit": len(c.Shots)},
 		"result":  map[string]any{"type": "phout", "destination": out},
 		"rps":     map[string]any{"type": "once", "times": len(c.Shots) + 5},
